@@ -19,8 +19,8 @@ import os
 from .. import vf
 from . import bindcommon
 
-DEPTHS_Q = "{100, 4095, 4096, 4097, 100000}"
-DEPTHS_T = "{1, 100, 4000, 4095, 4096, 4097, 8192, 100000, 3000000}"
+DEPTHS_Q = "{100, 2048, 2049, 4095, 4096, 4097, 100000}"
+DEPTHS_T = "{1, 100, 2000, 2047, 2048, 2049, 2050, 4000, 4094, 4095, 4096, 4097, 4098, 8192, 100000, 3000000}"
 
 
 def check(ctx):
